@@ -265,6 +265,27 @@ func amplifiers() []Case {
 		share[0] = -1
 		out = append(out, Case{Desc: fmt.Sprintf("mluc with %d records all sharing one %d-unit string", n, 12*n), Target: "icc", Data: build.SimpleProfile(build.Mluc(recs, nil, share, 0), 0)})
 	}
+	// long runs of one byte value after each format's signature: anything that keeps per-byte state (recursion,
+	// a growing slice) shows up as stack or heap growth, or as a crash, only for inputs of tens of MiB
+	runLen := ev.Pick(24<<20, 72<<20)
+	for _, b := range []byte{0xFF, 0x00} {
+		run := bytes.Repeat([]byte{b}, runLen)
+		for _, pre := range []struct {
+			name, target string
+			head         []byte
+		}{
+			{"JPEG SOI", "jpeg", []byte{0xFF, 0xD8}},
+			{"JPEG SOI+SOF+SOS", "jpeg", []byte{0xFF, 0xD8, 0xFF, 0xC0, 0, 11, 8, 0, 1, 0, 1, 1, 1, 0x11, 0, 0xFF, 0xDA, 0, 2}},
+			{"PNG signature+IHDR", "png", append(append([]byte(nil), build.PNGSig...), 0, 0, 0, 13, 'I', 'H', 'D', 'R', 0, 0, 0, 1, 0, 0, 0, 1, 8, 2, 0, 0, 0, 1, 2, 3, 4)},
+			{"RIFF WEBP VP8X+ICC flag", "webp", []byte("RIFF\xff\xff\xff\x7fWEBPVP8X\x0a\x00\x00\x00\x20\x00\x00\x00\x01\x00\x00\x01\x00\x00")},
+		} {
+			d := append(append([]byte(nil), pre.head...), run...)
+			out = append(out, Case{Desc: fmt.Sprintf("%s followed by %d bytes of %#02x", pre.name, runLen, b), Target: pre.target, Data: d})
+			if pre.target == "jpeg" && b == 0xFF {
+				out = append(out, Case{Desc: fmt.Sprintf("%s followed by %d bytes of %#02x", pre.name, runLen, b), Target: "auto", Data: d})
+			}
+		}
+	}
 	// JPEG with 255 ICC chunks and many small segments
 	prof := bytes.Repeat([]byte{7}, 255*40)
 	sizes := make([]int, 254)
